@@ -1692,10 +1692,11 @@ def run(ctx: Ctx) -> None:
     ctx.add_bounded(
         name="C17 generated SBML L3 documents read with mxlpy.sbml.read",
         tool="libsbml generator + independent SBML evaluator + sympy evaluation of pysbml's transformed model",
-        bound=("every MathML operator of L3V1 (+ L3V2 min/max/rem/quotient/implies) in a kinetic law; 6 expression shapes x 5 "
-               "positions; 12+4 species kinds; 13 stoichiometry shapes; 18 initial-assignment shapes; 12 function-definition "
-               f"shapes; {len(QUICK_IDS) if quick else len(AWKWARD_IDS)} awkward identifiers x up to 9 roles; 5 name collisions; "
-               f"13 multi-document sessions; {25 if quick else 320} random documents; {n_states + 1} states x 2 times each"),
+        bound=(f"every MathML operator of L3V1 ({len(UNARY_OPS)} one-argument functions, {len(EXPRS)} other expression shapes) + "
+               f"{len(EXPRS_V2)} L3V2 shapes in a kinetic law; 6 expression shapes x 5 positions; 21 species / compartment kinds; 15 "
+               "stoichiometry shapes; 18 initial-assignment shapes; 12 function-definition shapes; 9 rule / local-parameter shapes; "
+               f"{len(QUICK_IDS) if quick else len(AWKWARD_IDS)} awkward identifiers x up to 9 roles; 5 name collisions; 13 "
+               f"multi-document sessions; {25 if quick else 320} random documents; {n_states + 1} states x 2 times each"),
         cases=len(cases), distinct_nontrivial=nontrivial,
         rule="one case = one document (or one session of 2-4 documents) written with libsbml and read with the real "
              "sbml.read; distinct by canonical JSON of the document specs; every case has >= 2 species, 2 reactions",
